@@ -84,12 +84,15 @@ func refCandidate(proto string, n int, text string) (can bool, parts int, prio i
 }
 
 func runC09(res *Result, d *Driver, g *Rng, tier string) {
-	res.Rule = "contents (ASCII, GSM-only, Latin-1, CJK, emoji, mixed; lengths around the single/multi thresholds and part multiples) x all non-empty subsets and shuffled orderings (with duplicates) of the valid CMPP codings {0,8,9,15} / SMPP codings {0,1,3,8,99} plus invalid numbers x every origin coding (none, valid, invalid) x protocols CMPP, SMPP and one without codecs; every request repeated under shuffled candidate order and GOMAXPROCS 1,2,4,16; non-trivial = distinct (protocol, content class, candidate set, origin)"
+	res.Rule = "contents (ASCII, GSM-only, Latin-1, CJK, emoji, mixed; lengths around the single/multi thresholds, part multiples and the 255-part limit of every coding) x all non-empty subsets and shuffled orderings (with duplicates) of the valid CMPP codings {0,8,9,15} / SMPP codings {0,1,3,8,99} plus invalid numbers x every origin coding (none, valid, invalid) x protocols CMPP, SMPP and one without codecs; every request repeated under shuffled candidate order and GOMAXPROCS 1,2,4,16; non-trivial = distinct (protocol, content class, candidate set, origin)"
 	thorough := tier == "thorough"
 	var ops, goOut []string
 	contents := []string{"hello world", strings.Repeat("a", 160), strings.Repeat("a", 161), strings.Repeat("b", 140) + "[", strings.Repeat("x", 152) + "[" + strings.Repeat("y", 30),
 		"héllo wörld", strings.Repeat("é", 150), "中文短信", strings.Repeat("中", 70), strings.Repeat("中", 71), "emoji \U0001F600", strings.Repeat("a", 66) + "\U0001F600" + strings.Repeat("b", 10),
-		"Δabc@£", strings.Repeat("€", 81), "a", strings.Repeat("z", 306), strings.Repeat("中a", 60)}
+		"Δabc@£", strings.Repeat("€", 81), "a", strings.Repeat("z", 306), strings.Repeat("中a", 60),
+		// around the 255-part limit of each coding: a candidate that would need 256 parts is not usable
+		strings.Repeat("a", 17085), strings.Repeat("a", 17086), strings.Repeat("a", 20000), strings.Repeat("a", 34170), strings.Repeat("a", 34171),
+		strings.Repeat("a", 39015), strings.Repeat("a", 39016), strings.Repeat("a", 40000), strings.Repeat("中", 17085), strings.Repeat("中", 17086), strings.Repeat("é", 34171)}
 	if thorough {
 		for i := 0; i < 40; i++ {
 			contents = append(contents, buildText([]string{"ascii", "gsm", "latin1", "ucs2", "gb"}[i%5], g, g.Pick([]int{1, 100, 140, 141, 160, 161, 268, 306, 400}), -1))
